@@ -61,7 +61,7 @@ def Loc.isVertex (a : Loc α) : Bool := decide (a.frac ≤ 0) || decide (1 ≤ a
 inductive Item (α : Type) where
   | seg (c v : Nat) (len : α)
   | eol (c v : Nat)
-deriving Repr
+deriving Repr, DecidableEq
 
 def Item.c : Item α → Nat | .seg c _ _ => c | .eol c _ => c
 def Item.v : Item α → Nat | .seg _ v _ => v | .eol _ v => v
